@@ -39,6 +39,10 @@ def compose(outer, inner, n):
     return lo_o + lo_i, lo_o + hi_i
 
 
+def _as_tuple(roi):
+    return roi if isinstance(roi, tuple) else (roi,)
+
+
 def is_norm(s):
     """slice with concrete int start/stop."""
     return isinstance(s, slice) and s.start is not None and s.stop is not None
@@ -53,6 +57,14 @@ def valid_index(s, n):
 
 def opt_ge0(x):
     return True if x is None else x >= 0
+
+
+def norm_bound(x, default, n):
+    """what normalisation makes of one slice bound: fill in the default, count negative values from
+    the right and clamp them at 0 (as numpy does); values beyond n are kept as they are"""
+    if x is None:
+        return default
+    return Ite(x >= 0, x, Max(0, n + x))
 
 
 def opt_within(x, n):
@@ -106,11 +118,10 @@ contract(
     f"{ROI}:_norm_slice",
     ["C17", "C04"],
     inputs=dict(s=some_slice(), n=Int(ge=0)),
-    requires=[lambda s, n: valid_index(s, n)],
     ensures=[
         ("concrete-bounds", lambda s, n, result: And(is_norm(result), is_int_obj(result.start), is_int_obj(result.stop))),
-        ("same-elements", lambda s, n, result: same_set(bounds(result, n), bounds(s, n))),
-        ("int-index-nonneg", lambda s, n, result: And(result.start >= 0, result.stop == result.start + 1, result.stop <= n) if is_int_obj(s) else True),
+        ("same-elements (for every slice, and every int index that numpy accepts)", lambda s, n, result: Implies(valid_index(s, n), same_set(bounds(result, n), bounds(s, n)))),
+        ("int index i becomes [i', i'+1) with i' counted from the left", lambda s, n, result: And(result.start == idx_norm(s, n), result.stop == result.start + 1, Implies(valid_index(s, n), And(result.start >= 0, result.stop <= n))) if is_int_obj(s) else True),
         (
             "in-range-slices-exact",
             lambda s, n, result: Implies(
@@ -121,6 +132,7 @@ contract(
             else True,
         ),
         ("step-kept", lambda s, n, result: True if is_int_obj(s) else result.step is s.step),
+        ("exact bounds (strongest postcondition, for callers)", lambda s, n, result: True if is_int_obj(s) else And(result.start == norm_bound(s.start, 0, n), result.stop == norm_bound(s.stop, n, n))),
     ],
     returns=lambda s, n: Slice(Int(), Int(), None if is_int_obj(s) else s.step),
 )
@@ -214,15 +226,18 @@ contract(
     ["C17", "C04"],
     inputs=[dict(roi=some_slice(), shape=OneOf(Int(ge=0), Tup(Int(ge=0))))]
     + nd_cases(["roi"], extra=dict(shape=lambda k: Tup(*[Int(ge=0)] * k))),
-    requires=[
-        lambda roi, shape: And(*[valid_index(s, n) for s, n in zip(roi, shape)]) if isinstance(roi, tuple) else valid_index(roi, shape[0] if isinstance(shape, tuple) else shape)
-    ],
     ensures=[
         (
-            "same-elements-per-axis",
-            lambda roi, shape, result: And(*[And(is_norm(r), same_set(bounds(r, n), bounds(s, n))) for r, s, n in zip(result, roi, shape)])
-            if isinstance(roi, tuple)
-            else And(is_norm(result), same_set(bounds(result, shape[0] if isinstance(shape, tuple) else shape), bounds(roi, shape[0] if isinstance(shape, tuple) else shape))),
+            "same-elements-per-axis (every slice; every int index numpy accepts)",
+            lambda roi, shape, result: And(*[And(is_norm(r), Implies(valid_index(s, n), same_set(bounds(r, n), bounds(s, n)))) for r, s, n in zip(_as_tuple(result), _as_tuple(roi), _as_tuple(shape))]),
+        ),
+        (
+            "int index i becomes [i', i'+1)",
+            lambda roi, shape, result: And(*[And(r.start == idx_norm(s, n), r.stop == r.start + 1) for r, s, n in zip(_as_tuple(result), _as_tuple(roi), _as_tuple(shape)) if is_int_obj(s)]),
+        ),
+        (
+            "exact bounds per axis (strongest postcondition, for callers)",
+            lambda roi, shape, result: And(*[And(r.start == norm_bound(s.start, 0, n), r.stop == norm_bound(s.stop, n, n)) for r, s, n in zip(_as_tuple(result), _as_tuple(roi), _as_tuple(shape)) if not is_int_obj(s)]),
         ),
         ("arity", lambda roi, result: len(result) == len(roi) if isinstance(roi, tuple) else isinstance(result, slice)),
         (
@@ -230,7 +245,7 @@ contract(
             lambda roi, shape, result: And(
                 *[
                     Implies(
-                        True if is_int_obj(s) else And(opt_within(s.start, n), opt_within(s.stop, n)),
+                        valid_index(s, n) if is_int_obj(s) else And(opt_within(s.start, n), opt_within(s.stop, n)),
                         And(r.start == bounds(s if is_int_obj(s) else slice(s.start, None), n)[0], r.stop == (bounds(s, n)[0] + 1 if is_int_obj(s) else py_slice_bounds(None, s.stop, n)[1])),
                     )
                     for r, s, n in (zip(result, roi, shape) if isinstance(roi, tuple) else [(result, roi, shape[0] if isinstance(shape, tuple) else shape)])
@@ -314,10 +329,6 @@ def _dim(s):
     if is_int_obj(s):
         return 1
     return s.stop if s.start is None else s.stop - s.start
-
-
-def _as_tuple(roi):
-    return roi if isinstance(roi, tuple) else (roi,)
 
 
 def _shape_inputs(elem):
